@@ -1279,20 +1279,22 @@ class Driver(object, metaclass=DriverMetaclass):
                 if meta['equals'] is not None:
                     con_val -= meta['equals']
                 else:
-                    lower_viol_idxs = np.where(con_val < meta['lower'])[0]
-                    upper_viol_idxs = np.where(con_val > meta['upper'])[0]
-                    non_viol_idxs = np.where((con_val >= meta['lower'])
-                                             & (con_val <= meta['upper']))[0]
-                    con_val[lower_viol_idxs] -= meta['lower']
-                    con_val[upper_viol_idxs] -=  meta['upper']
+                    # bounds may be given per element
+                    lower = np.broadcast_to(meta['lower'], con_val.shape)
+                    upper = np.broadcast_to(meta['upper'], con_val.shape)
+                    lower_viol_idxs = np.where(con_val < lower)[0]
+                    upper_viol_idxs = np.where(con_val > upper)[0]
+                    non_viol_idxs = np.where((con_val >= lower) & (con_val <= upper))[0]
+                    con_val[lower_viol_idxs] -= lower[lower_viol_idxs]
+                    con_val[upper_viol_idxs] -= upper[upper_viol_idxs]
                     con_val[non_viol_idxs] = 0.0
 
-            con_dict[name] = con_vec[name].copy()
+                # The violations were computed unscaled.  A violation is a difference of
+                # two constraint values, so only the scaler applies to it, not the adder.
+                if driver_scaling and meta['total_scaler'] is not None:
+                    con_val *= meta['total_scaler']
 
-        # If we computed violations, those were unscaled.
-        # Now scale them.
-        if driver_scaling and viol:
-            self._autoscaler.apply_constraint_scaling(con_vec)
+            con_dict[name] = con_vec[name].copy()
 
         return con_dict
 
